@@ -4,6 +4,7 @@ import re
 import hir as H
 import mir as M
 import rulelib as L
+import symrules as SR
 import spec_tables as S
 from c08 import format_calls
 
@@ -222,23 +223,27 @@ def run(F, R, tier):
                         asg[o[2]] = n["r"]
         ok = set(asg) == {"kty", "params"} and H.fn_name(H.strip(asg.get("params", {}))) == KP + "::JwkParams::new"
         r3.require(ok, (JWK + "::set_kty", "resets"), "Jwk::set_kty does not reset params to the new key type's empty parameters")
-    h = F.hir(JWK + "::set_params")
-    if r3.anchor(h, JWK + "::set_params"):
-        env = H.Env(h)
-        m = H.find_first(h, lambda n: n.get("k") == "match" and n.get("src") == "normal")
-        if r3.require(m is not None, (JWK + "::set_params", "table"), "set_params table not found"):
-            sc = H.strip(m["scrut"])
-            rows = {}
-            for arm in m["arms"]:
-                ps = H.pat_str(arm["pat"])
-                writes = any(n.get("k") == "mcall" and n["name"] == "set_params_unchecked" for n in H.walk(arm["body"]))
-                rows[ps] = "write" if writes else H.outcome(arm["body"])
-            r3.site("set_params table %s" % rows)
-            want_write = {"(Ec, Ec(_))", "(Rsa, Rsa(_))", "(Oct, Oct(_))", "(Okp, Okp(_))"}
-            r3.require({k for k, v in rows.items() if v == "write"} == want_write and all(v.startswith("Err(") for k, v in rows.items() if k not in want_write),
-                       (JWK + "::set_params", "rows"), "set_params writes for a (kty, params) pair of different families: %s" % rows)
-            so = H.origins(sc["es"][0], env) if sc.get("k") == "tup" else set()
-            r3.require(so == {("param", "self", "kty")}, (JWK + "::set_params", "scrutinee"), "set_params does not compare against self.kty")
+    # set_params: by abstract evaluation, every path that stores the new parameters (field write, or the unchecked setter) has
+    # kty and the parameter family decided and equal, the write happens only after that decision, and a mismatch returns Err
+    tab = SR.Table(F, JWK + "::set_params", rule=r3)
+    KTY = SR.fld("kty")
+    fams = set()
+    for q in tab.paths:
+        ws = SR.writes(q, "params")
+        if not ws:
+            r3.require(not SR.is_success(q.ret), (JWK + "::set_params", "ok-without-write"), "set_params returns Ok without storing the parameters: %s" % q.describe()[:200])
+            continue
+        kv = SR.variant(q, KTY)
+        pv = None
+        for t_, v_ in q.variant.items():
+            if isinstance(v_, str) and SR.derives(t_, SR.param("params")) and v_ in ("Ec", "Rsa", "Oct", "Okp"):
+                pv = v_
+        fams.add((kv, pv, "Ok" if SR.is_success(q.ret) else "Err"))
+        r3.require(kv is not None and kv == pv and SR.is_success(q.ret), (JWK + "::set_params", "rows"),
+                   "set_params stores parameters of family %s into a key of type %s (outcome %s): kty and params can disagree — path: %s" % (pv, kv, q.outcome(), q.describe()[:200]))
+    r3.site("set_params stores on %s" % sorted(fams, key=str))
+    if tab.paths:
+        r3.require({f[0] for f in fams if f[2] == "Ok"} >= {"Ec", "Rsa", "Oct", "Okp"}, (JWK + "::set_params", "coverage"), "set_params does not accept every matching (kty, params) family: %s" % sorted(fams, key=str))
     r3.floor(9)
 
     # ------------------------------------------------------------------ R4 no private members in verification methods
